@@ -11,6 +11,8 @@ fn rules() -> Vec<String> {
         "||ads.example.com^", "/adframe.", "/banner/*/img^", "@@||good.example.com^$script", "||cdn.example.net^$important,third-party",
         "||track.example.org^$redirect=noop.js", "||media.example.org^$csp=script-src 'none'", "||tagged.example^$tag=alpha", "@@||tagged.example/ok^$tag=beta",
         "||example.com^$removeparam=utm_source", "-advert-$badfilter", "-advert-",
+        // one fusable group in which two rule lines reduce to the same pattern text
+        "-adbanner-", "-adbanner-*", "-adbanner-2", "-adbanner-3", "-adbanner-4", "-adbanner-5", "-adbanner-6",
         "##.generic-ad", "###sponsor", "##.complex > .ad", "a.com,b.com##.site-ad", "a.com,c.org#@#.generic-ad", "b.com,d.net##+js(set-constant, a, 1)",
         "d.net#@#+js(set-constant, a, 1)", "a.com,e.io##.x:style(color: red)", "a.com#@#.x:style(color: red)", "e.io,f.dev#@#.y:has-text(ad)", "~g.net##.y:has-text(ad)",
         "h.com,i.com##.z:remove()", "example.*##.entity-ad",
